@@ -46,7 +46,13 @@ Step(ax, t) ==
   /\ depth' = depth + 1
   /\ UNCHANGED <<parent, kind, pid>>
 
-Next == \E ax \in Axes, t \in Tests : Step(ax, t)
+(* a leading "/": from the initial context to the (virtual, RootCfg = "R2") document node 0, whose only *)
+(* child is the root element; node 0 itself is never part of a result (spec/Paths.tla, Root)          *)
+Root == /\ depth = 0 /\ cur = {1} /\ curP = {1}
+        /\ cur' = {0} /\ curP' = {0}
+        /\ UNCHANGED <<parent, kind, pid, depth>>
+
+Next == (\E ax \in Axes, t \in Tests : Step(ax, t)) \/ Root
 Spec == Init /\ [][Next]_vars
 
 TreeOK ==   \* the flattened instance is a tree of the XDM universe
